@@ -147,16 +147,23 @@ def Node.depth : Nat → Node α → Nat
   | _, .leaf .. => 1
   | fuel+1, .branch _ _ ch => 1 + (ch.map (fun p => Node.depth fuel p.2)).foldl max 0
 
-/-- `_add_1dim_outlier_row` -/
-def addOutlier (c : FCtx α) : Nat → Node α → Nat → Node α
-  | 0, n, _ => n
-  | _+1, .leaf d subs rows, row => .leaf { d with counter := d.counter.add (c.pidRow row) } subs (rows ++ [row])
+/-- the child an outlier row is folded into: the only child, else the one the row routes to -/
+def outlierIndex (c : FCtx α) (d : NodeData α) (children : List (Nat × Node α)) (row : Nat) : Nat :=
+  match children with
+  | [(i, _)] => i
+  | _ => childIndex d.snapped (c.vals d.comb row)
+
+/-- `_add_1dim_outlier_row`; `none` = recursion budget exhausted, or `self.children[child_index]` raising `KeyError` -/
+def addOutlier (c : FCtx α) : Nat → Node α → Nat → Option (Node α)
+  | 0, _, _ => none
+  | _+1, .leaf d subs rows, row => some (.leaf { d with counter := d.counter.add (c.pidRow row) } subs (rows ++ [row]))
   | fuel+1, .branch d subs children, row =>
-      let idx := match children with
-        | [(i, _)] => i
-        | _ => childIndex d.snapped (c.vals d.comb row)
-      .branch { d with counter := d.counter.add (c.pidRow row) } subs
-        (children.map (fun p => if p.1 == idx then (p.1, addOutlier c fuel p.2 row) else p))
+      match children.find? (fun p => p.1 == outlierIndex c d children row) with
+      | none => none
+      | some _ =>
+        (children.mapM (fun p => if p.1 == outlierIndex c d children row
+            then (addOutlier c fuel p.2 row).map (fun n => (p.1, n)) else some p)).map
+          (fun ch => .branch { d with counter := d.counter.add (c.pidRow row) } subs ch)
 
 /-- `_get_low_count_rows_in_child`: `none` = the child is not low count -/
 def lowRows (E : Env α) (c : FCtx α) (children : List (Nat × Node α)) (idx : Nat) : Option (List Nat) :=
@@ -165,15 +172,15 @@ def lowRows (E : Env α) (c : FCtx α) (children : List (Nat × Node α)) (idx :
   | some n@(.leaf _ _ rows) => if n.overThreshold E c c.ap.supp.lt then none else some rows
   | some (.branch ..) => none
 
-/-- `push_down_1dim_root` -/
-def pushDown (E : Env α) (c : FCtx α) : Nat → Node α → Node α
-  | 0, n => n
-  | _, n@(.leaf ..) => n
+/-- `push_down_1dim_root`; `none` as for `addOutlier` -/
+def pushDown (E : Env α) (c : FCtx α) : Nat → Node α → Option (Node α)
+  | 0, _ => none
+  | _+1, n@(.leaf ..) => some n
   | fuel+1, n@(.branch _ _ children) =>
       match lowRows E c children 0, lowRows E c children 1, lookupChild children 0, lookupChild children 1 with
-      | none, some rs, some c0, _ => rs.foldl (fun t r => addOutlier c 100000 t r) (pushDown E c fuel c0)
-      | some ls, none, _, some c1 => ls.foldl (fun t r => addOutlier c 100000 t r) (pushDown E c fuel c1)
-      | _, _, _, _ => n
+      | none, some rs, some c0, _ => (pushDown E c fuel c0).bind (fun t => rs.foldlM (fun t r => addOutlier c 100000 t r) t)
+      | some ls, none, _, some c1 => (pushDown E c fuel c1).bind (fun t => ls.foldlM (fun t r => addOutlier c 100000 t r) t)
+      | _, _, _, _ => some n
 
 /-- `_matching_rows` (children in insertion order) -/
 def Node.matchingRows : Nat → Node α → List Nat
